@@ -958,9 +958,15 @@ def _isfinite(ex, st, args, kwargs):
 
 
 def _dc_replace(ex, st, args, kwargs):
+    """dataclasses.replace(obj, **changes) on an abstract object: a new object of the same kind that is a function of
+    the original and of exactly the overridden fields (their names are part of the function's name)."""
+    from .contracts import pure_result
+
     o = st.deref(args[0])
     if isinstance(o, Opaque):
-        yield st, Opaque(o.kind)  # a new abstract instance of the same kind (fields not tracked)
+        names = sorted(k for k in kwargs if k != "**")
+        st.trace.append(("call", "dataclasses.replace", None, (o,), tuple((k, kwargs[k]) for k in names)))
+        yield st, pure_result(ex, st, "dataclasses.replace[" + ",".join(names) + "]", f"u:{o.kind}", [o] + [kwargs[k] for k in names])
         return
     raise U(f"dataclasses.replace of {o!r}")
 
